@@ -38,11 +38,30 @@ def semantic_hooks():
     }
 
 
+ALL_INTERPS = []
+
+
+def inlined_repo_functions():
+    """fully qualified names of every function of the package that any evaluation of this run went through"""
+    out = set()
+    for i in ALL_INTERPS:
+        out |= set(f for f in i.inlined if f.startswith("atsim"))
+    return out
+
+
+def path_state_rule(chk, P, rule, what):
+    from .props import c12
+    chk.rule(rule, "no function on this check's call path keeps state between calls (default-argument objects, fields holding them, "
+                   "module-level containers)", 1)
+    chk.attempt(rule.split(".")[-1], lambda: c12.path_state(chk, P, rule, inlined_repo_functions(), what))
+
+
 def make_interp(P, elem=None, hooks=True, assumptions=None):
     ec = {}
     for path, (mod, cls) in (elem or {}).items():
         ec[path] = P.cls(mod, cls)
     I = Interp(P, elem_classes=ec, assumptions=assumptions or {})
+    ALL_INTERPS.append(I)
     I.assumption_fns.append(species_nonempty)
     I.assumption_fns.append(inputs_callable)
     if hooks:
